@@ -45,4 +45,4 @@ def run(ctx):
     if ex.get("enc_cases_G1", 0) < 20 or ex.get("enc_cases_G2", 0) < 300 or ex.get("law_cases", 0) < 1500:
         raise vlib.Infra("too few cases materialised: %s" % ex)
     ctx.exhaustive = True
-    ctx.notes.append("exhaustive over the modelled classes; within a class the points and the scalars r1, r2 are seeded random (thorough: 4 materialisations per case)")
+    ctx.notes.append("exhaustive over the modelled classes; within a class the points and the scalars r1, r2 are seeded random (thorough: 10 materialisations per case)")
